@@ -11,6 +11,7 @@ mod c12;
 mod queries;
 mod engine_run;
 mod c04;
+mod c05;
 mod c09;
 mod c11;
 mod c15;
@@ -75,6 +76,7 @@ fn main() {
                 "C16" => c16::run(&params),
                 "C03" => c03::run(&params),
                 "C04" => c04::run(&params),
+                "C05" => c05::run(&params),
                 "C09" => c09::run(&params),
                 "C11" => c11::run(&params),
                 "C15" => c15::run(&params),
